@@ -260,8 +260,12 @@ theorem step_rc {cfg : Cfg} {s s' : Ledger} {op : Op} (h : RcAll s) (hc : Cov s 
     · cases hr; exact h
   | nop id => simp only [step, Option.some.injEq] at hr; subst hr; exact h
 
-theorem rc_init : RcAll {} :=
-  ⟨List.nodup_nil, fun i hi => by cases hi, fun i nd h => by simp at h⟩
+theorem rc_init : RcAll {} := by
+  refine ⟨List.nodup_nil, fun i hi => ?_, fun i nd h => ?_⟩
+  · cases hi
+  · have : ({} : Ledger).mem.nodes = [] := rfl
+    rw [this] at h
+    cases h
 
 theorem run_rc {cfg : Cfg} : ∀ (ops : List Op) {s : Ledger}, RcAll s → AllSteps cfg Cov s ops → RcAll (run cfg s ops)
   | [], _, h, _ => h
